@@ -1558,6 +1558,23 @@ class Translator:
                 else:
                     cx.emit(f'{t.c} {name} = {{ {init} }};')
                 return
+            if t.c in self.cfg.get('opaque_records', []) and (s is None or s.get('kind') == 'CXXConstructExpr'):
+                # local object of a class outside the unit (e.g. a copy of a callback list): its constructors and its
+                # destructor are environment stubs, the spec says what a copy is
+                args = s.get('inner', []) if s is not None else []
+                if len(args) > 1: raise Unsupported(f'construction of {t.c} {name} from {len(args)} arguments in {cx.cname}')
+                if not args:
+                    cn = f'{t.c}_ctor'; a = [f'&{name}']; sig = f'void {cn}({t.c} *self)'
+                else:
+                    mv = self.is_move_call(args[0])
+                    cn = f'{t.c}_ctor_move' if mv is not None else f'{t.c}_ctor_copy'
+                    a = [f'&{name}', self.addr_of(mv if mv is not None else args[0], cx)]; sig = f'void {cn}({t.c} *self, {t.c} *other)'
+                self.externs.setdefault(cn, sig)
+                self.flush_pre(cx)
+                cx.emit(f'{cn}({", ".join(a)});')
+                dn = f'{t.c}_dtor'; self.externs.setdefault(dn, f'void {dn}({t.c} *self)')
+                cx.scopes[-1].append(f'{dn}(&{name});')
+                return
             if s is None or s.get('kind') != 'CXXConstructExpr':
                 raise Unsupported(f'record variable {name} without constructor call in {cx.cname}')
             ctor = self.find_ctor(t, s)
